@@ -4,8 +4,10 @@ EXTENDS Config
 
 MC_AllFields == Fields
 \* the optional fields whose presence is toggled: every subset
-MC_OptFields == {R \o ".packageName", R \o ".outputFilePerms", R \o ".templateOverrides", I \o ".contact", I \o ".license", D}
-MC_OptTokens == {"#ABSENT", "#OBJ"}
+\* (together with the OpenAPI version: each emitter copies the optional sections on its own)
+MC_OptFields == {R \o ".packageName", R \o ".outputFilePerms", R \o ".templateOverrides", I \o ".contact", I \o ".license", D,
+                 I \o ".description", I \o ".termsOfService", O \o ".openapi"}
+MC_OptTokens == {"#ABSENT", "#OBJ"} \cup Versions
 \* engines x versions x permission strings x glob sets
 MC_MatrixFields == {R \o ".engine", O \o ".openapi", R \o ".outputFilePerms", "commonConfig.controllerGlobs"}
 MC_PermFields == {R \o ".outputFilePerms"}
